@@ -16,9 +16,9 @@ def rule(m):
     f, t, o, n, ln = m['file'], m['text'], m['old'], m['new'], m['line']
     if 'almost_equal' in t or 'np.allclose(self.' in t:
         return OUT + '`almost_equal` helper (never part of a property)'
-    if re.search(r'np\.(empty|zeros|ones)\(', t) and ('N1' in t or 'len(' in t or t.startswith(('t_aux', 'st =', 'c =', 'mp =', 'a ='))):
+    if re.search(r'np\.(empty|zeros|ones)\(', t) and ('N1' in t or 'len(' in t or t.startswith(('t_aux', 'st =', 'c =', 'mp =', 'a ='))) and (o, n) in (('2', '3'), ('-', '+'), ('1', '0'), ('1', '2')):
         return EQ + 'work buffer only gets larger; the result is sliced to the filled part'
-    if re.search(r'if N[12] > 1', t) or re.search(r'else t_end-[st][12]\[N[12]-1\]', t):
+    if (re.search(r'if N[12] > 1', t) or re.search(r'else t_end-[st][12]\[N[12]-1\]', t)) and (o, n) in (('>', '>='), ('1', '0'), ('1', '2')):
         return EQ + 'for a one-spike train `s[N-2]` is `s[-1] = s[0]` (numpy wrap-around), so both branches give `t_end - s[0]`'
     if re.search(r'^elif \((index2|j) < N2-1\)', t) or re.search(r'^if \(index1 < N1-1\) and', t):
         return EQ + 'the guard is implied by the loop condition together with the failed first branch (proved as loop invariant in Proofs/Isi, SpikeScan, SyncScan)'
@@ -80,3 +80,33 @@ print('unclassified:', n_un)
 for m in M:
     if m.get('classification') == 'UNCLASSIFIED':
         print('  %s:%d:%d %s->%s | %s' % (m['file'], m['line'], m['col'], m['old'], m['new'], m['text'][:90]))
+
+
+# ---- regenerate MUTANTS.md with the classification
+py = [m for m in M if not m['file'].endswith('.pyx')]
+px = [m for m in M if m['file'].endswith('.pyx')]
+with open(os.path.join(V, 'seeded', 'MUTANTS.md'), 'w') as f:
+    f.write('# First-order mutants (tools/mutants.py, classification: tools/mutants_classify.py)\n\n')
+    for title, grp in (('pyspike/*.py', py), ('pyspike/cython/*.pyx (never compiled here: the repository\'s tests cannot see these changes at all; checked through the transliterator)', px)):
+        if not grp:
+            continue
+        surv = [m for m in grp if m.get('survives_tests')]
+        missed = [m for m in surv if not m.get('caught_by')]
+        f.write('## %s\n\n' % title)
+        f.write('%d mutants generated (comparison / arithmetic operators, small constants, min/max, and/or, True/False; one token each).\n' % len(grp))
+        f.write('%d are rejected by the repository\'s own test-suite; %d pass it — realistic changes that compile and pass the existing tests.\n' % (len(grp) - len(surv), len(surv)))
+        f.write('Of those %d the registered quick checks catch %d (most relevant check first, stopping at the first exit 1); %d are caught by no check:\n' % (len(surv), len(surv) - len(missed), len(missed)))
+        cl = {}
+        for m in missed:
+            key = (m.get('classification') or 'UNCLASSIFIED').split(':')[0]
+            cl[key] = cl.get(key, 0) + 1
+        f.write(', '.join('%s: %d' % kv for kv in sorted(cl.items())) + '.\n\n')
+        by = {}
+        for m in surv:
+            if m.get('caught_by'):
+                by[m['caught_by']] = by.get(m['caught_by'], 0) + 1
+        f.write('First check that caught a mutant: ' + ', '.join('%s %d' % kv for kv in sorted(by.items())) + '.\n\n')
+        f.write('| file:line | change | source line | why no check can / needs to catch it |\n|---|---|---|---|\n')
+        for m in sorted(missed, key=lambda m: (m.get('classification', '') != 'UNCLASSIFIED', m['file'], m['line'], m['col'])):
+            f.write('| %s:%d | `%s` → `%s` (col %d) | `%s` | %s |\n' % (m['file'].replace('pyspike/', ''), m['line'], m['old'], m['new'], m['col'], m['text'].replace('|', '\\|')[:90], m.get('classification', '')))
+        f.write('\n')
